@@ -95,6 +95,30 @@ fn shared() -> &'static Shared {
     })
 }
 
+/// Timing perturbation: `TCHERAN_VERIF_DELAY_MS="exit=100,lock=20"` makes every step whose label ends
+/// in `:exit` sleep 100 ms (and `:lock` 20 ms) before it is taken, widening the corresponding window.
+fn delay(label: &str) {
+    static D: OnceLock<Vec<(String, u64)>> = OnceLock::new();
+    let d = D.get_or_init(|| {
+        std::env::var("TCHERAN_VERIF_DELAY_MS")
+            .map(|v| {
+                v.split(',')
+                    .filter_map(|kv| {
+                        let (k, ms) = kv.split_once('=')?;
+                        Some((format!(":{}", k.trim()), ms.trim().parse().ok()?))
+                    })
+                    .collect()
+            })
+            .unwrap_or_default()
+    });
+
+    for (suffix, ms) in d {
+        if label.ends_with(suffix.as_str()) {
+            std::thread::sleep(std::time::Duration::from_millis(*ms));
+        }
+    }
+}
+
 /// A fresh number for a search thread (1, 2, ...), taken under the scheduler's lock.
 pub fn next_search_id() -> u64 {
     let mut g = shared().m.lock().unwrap();
@@ -105,6 +129,8 @@ pub fn next_search_id() -> u64 {
 /// Block until `label` is the step under the cursor. Returns at once when there is no schedule,
 /// when it is exhausted, or when `label` does not occur in the remaining schedule.
 pub fn gate(label: &str) {
+    delay(label);
+
     let s = shared();
     let mut g = s.m.lock().unwrap();
     loop {
